@@ -9,6 +9,11 @@ Tie to the code (hand model `lean/Flowjaxv/Model/Tree.lean`, driver op `pytree`)
     idempotence, the exact ORDER of applied wrappers, which leaves land in params / static under
     `eqx.partition(…, is_leaf=NonTrainable)`, `num_params`, `constructor(v)` leaf by leaf (bitwise),
     `eqx.apply_updates` with `None` holes, per-slice trees of vmapped constructions;
+  * the per-class `.unwrap()` bodies — abstract in the first group of theorems — are also REGENERATED from flowjax/wrappers.py
+    (`Gen/Wrappers.lean`: NonTrainable, BijectionReparam + its constructor, Where, WeightNormalization at rank 2 and 3, Lambda), assembled
+    into one `WrapFn` (`Model/WrapGen.lean`) for which `WrapFree` / `SkUniform` are proved, and run (driver op `gwrap`) against the real
+    `unwrap` on matrices / rank-3 weights of many shapes and on whole nests (BNAF weight nest, masked MAF layers, NonTrainable subtrees,
+    a Lambda) by `tools/props/wrapgen.py`;
   * real-vs-real oracles (also the `search`): batched unwrap == stack of individually built unwraps, methods give
     bit-identical results on `t` and `unwrap(t)`, every bijection class's four methods are wrapped by
     `_unwrap_check_and_cast` and every distribution method starts with `self = unwrap(self)`, real
@@ -43,9 +48,10 @@ from flowjax.wrappers import (AbstractUnwrappable, BijectionReparam, Lambda, Non
 
 import vlib
 from vlib import f2b, fs2b, b2fs
+from props import wrapgen
 
 ID = "C12"
-GEN = []
+GEN = ["Wrappers"]
 RULE = ("random real pytrees over the five flowjax.wrappers classes (depth<=4: NonTrainable / BijectionReparam(Exp|SoftPlus) / "
         "Where / WeightNormalization / Lambda nested in each other and in tuples, lists, dicts, eqx Modules and real bijections, "
         "shared sub-objects, float/int/bool arrays, non-array leaves, None), the same under 1-2 levels of eqx.filter_vmap, "
@@ -58,7 +64,9 @@ TRUSTED = [
     "hand model Model/Tree.lean of jax.tree_util flattening order, eqx.partition/combine/apply_updates, ravel_pytree, "
     "eqx.filter_vmap (leafwise stack of per-slice results) — validated by this correspondence on every run",
     "the generic encoder of real pytrees in tools/props/c12.py (one-level flattening, array identity)",
-    "the per-class .unwrap() bodies are an abstract parameter f of the theorems (hypothesis WrapFree f); bit-identity is Lean equality of array data",
+    "the per-class .unwrap() bodies are an abstract parameter f of the theorems (hypothesis WrapFree f), instantiated with the bodies regenerated from "
+    "flowjax/wrappers.py (Gen/Wrappers.lean; translator tools/py2lean/py2nd.py + typing sheet targets_wrappers.py trusted and compared with the real unwrap "
+    "on every run; a Lambda's function stays a parameter); bit-identity is Lean equality of array data",
 ]
 ASSUMPTIONS = [
     "exactly-zero gradient of NonTrainable leaves rests on jax.lax.stop_gradient's semantics (measured on the real code: jax.grad is exactly 0; frozen leaves are absent from the params half, which is proved)",
@@ -1200,6 +1208,14 @@ def corr(c, tier, rng):
     c.count("guard-table-entries", n)
 
     batch.run()
+
+    # generated `.unwrap()` bodies (Gen/Wrappers.lean) against the real ones
+    try:
+        wrapgen.corr_generated(c, tier, rng)
+    except vlib.ModelError:
+        raise
+    except Exception as ex:
+        c.mismatch("harness-exception", desc="generated-bodies", exc=repr(ex)[:300])
 
 
 # ------------------------------------------------------------------ witness search (real code only)
